@@ -31,11 +31,9 @@ use verif_harness::world::*;
 
 // ---------------------------------------------------------------- known classes
 const K_CAP: &str = "atr-payout-cap-reads-unfilled-treasury";
-const K_GT: &str = "invalid-golden-ticket-never-cleaned";
-const K_CLASH: &str = "rebroadcast-clash-drains-pool";
 const K_ISSUANCE: &str = "type-issuance-pool";
-const K_STAKE: &str = "foreign-stake-transaction-pooled";
 const K_DUST: &str = "dust-output-spent-at-window-edge";
+const K_LEFTOUT: &str = "left-out-transaction-carried-the-work";
 
 type Rt = tokio::runtime::Runtime;
 fn bo<F: Future>(rt: &Rt, f: F) -> F::Output {
@@ -49,7 +47,7 @@ enum Item {
     /// spends an input of a transaction pooled earlier in this round
     Conflict,
     /// spends an output that the next block rebroadcasts
-    Clash { payer: usize },
+    Clash { payer: usize, fee: u64 },
     Issuance,
     /// BlockStake-typed transaction of a payer (not the producer's wallet)
     ForeignStake { payer: usize },
@@ -334,11 +332,11 @@ impl Rig {
                     log.push(format!("{{\"op\":\"conflicting-spend\",\"payer\":{},\"pooled\":{}}}", owner, ok));
                 }
             }
-            Item::Clash { payer } => {
+            Item::Clash { payer, fee } => {
                 let f = self.free(*payer, true);
                 if let Some(s) = f.first().cloned() {
                     self.used.insert(Rig::key_of(&s));
-                    let tx = self.build_transfer(&s, *payer, 500, 1);
+                    let tx = self.build_transfer(&s, *payer, *fee, 1);
                     let ok = self.submit(tx);
                     self.stat(&format!("pool-item:spends-output-due-for-rebroadcast:{}", if ok { "pooled" } else { "refused" }));
                     log.push(format!(
@@ -437,14 +435,22 @@ impl Rig {
         } else {
             0
         };
+        let target = if c.transaction_type == TransactionType::GoldenTicket && c.data.len() == 97 {
+            self.it.get(&c.data[0..32])
+        } else {
+            0
+        };
+        let own = c.from.iter().all(|sl| sl.public_key == self.prod.pk);
         let coq = format!(
-            "mkTx {} {} {} {} {} {}",
+            "mkTx {} {} {} {} {} {} {} {}",
             id,
             sig,
             ty_code(c.transaction_type),
             c.total_work_for_me,
             gal::nlist(&in_ids),
-            atr_slips
+            atr_slips,
+            target,
+            gal::boolean(own)
         );
         Atx { id, sig, coq, ty: c.transaction_type, inputs }
     }
@@ -526,6 +532,11 @@ impl Rig {
         let hb = self.params.heartbeat;
         let ts: u64 = (tip.timestamp as i64 + spec.gap).max(0) as u64;
         let gt_tx: Option<Transaction> = self.prod.mempool.golden_tickets.get(&tip.hash).map(|(t, _)| t.clone());
+        // since fix e0300b2 bundle_block goes on without a ticket that does not solve the tip
+        let gt_eff: Option<Transaction> = match &gt_tx {
+            Some(t) if gt_solves(&t.data, &tip) => Some(t.clone()),
+            _ => None,
+        };
         let value = offset_value(&self.prod.pk, &tip.hash);
         let gtc_with = self.prod.blockchain.is_golden_ticket_count_valid(tip.hash, true, false, false);
         let gtc_without = self.prod.blockchain.is_golden_ticket_count_valid(tip.hash, false, false, false);
@@ -607,7 +618,7 @@ impl Rig {
             && queue_empty
             && had_pool
             && fresh
-            && (if gt_tx.is_some() { gtc_with } else { gtc_without })
+            && (if gt_eff.is_some() { gtc_with } else { gtc_without })
             && !(ts < tip.timestamp + value)
             && cached_work >= work_needed;
 
@@ -633,13 +644,17 @@ impl Rig {
         }
         let stake_coq = self.coq_opt_tx(&stake_pred);
 
+        let mut gt_tbl: Vec<(u64, bool)> = vec![];
+        if let Some(t) = &gt_tx {
+            let a = self.atx(t);
+            gt_tbl.push((a.id, gt_solves(&t.data, &tip)));
+        }
         // ---- causes of known classes, decided before the outcome is seen
         let gt_invalid = match &gt_tx {
             Some(t) => !gt_solves(&t.data, &tip),
             None => false,
         };
         let pool_has_issuance = pool_types.contains("TIssuance");
-        let pool_has_stake = pool_types.contains("TBlockStake");
         let staked = gp.saturating_mul(tip.avg_nolan_rebroadcast_per_block);
         let multiplier = if staked > 0 { 1 + tip.treasury / staked } else { 1 };
         let src = self.rebroadcast_source();
@@ -663,7 +678,6 @@ impl Rig {
         let mut cv_v = cv_c.clone();
         let mut hchain_tbl = "[([], 0)]".to_string();
         let mut mroot_tbl = "[]".to_string();
-        let mut gt_tbl: Vec<(u64, bool)> = vec![];
         let mut order: Vec<u64> = vec![];
         let mut block_hash_id = 0u64;
         let mut supply_ok = true;
@@ -708,7 +722,7 @@ impl Rig {
                             ts,
                             &self.prod.pk,
                             &self.prod.sk,
-                            gt_tx.clone(),
+                            gt_eff.clone(),
                             &self.peer.cfg,
                             &self.peer.storage,
                         ),
@@ -731,14 +745,14 @@ impl Rig {
                     };
                     let by_pool = pool_inputs.keys().any(|k| atr_keys.contains(k));
                     let by_stake = stake_keys.iter().any(|k| atr_keys.contains(k));
-                    let what = format!(
-                        "bundle_block passed can_bundle_block but returned no block: Block::create failed after draining the pool ({} transactions lost, pool now {}); rebroadcast of block {} collides with {}",
-                        pool_txs.len(),
-                        pool_now,
-                        src,
-                        if by_pool && by_stake { "a pooled transaction and the producer's own staking transaction" } else if by_pool { "a pooled transaction" } else if by_stake { "the producer's own staking transaction" } else { "nothing identified" }
-                    );
-                    findings.push((what, if by_pool || by_stake { Some(K_CLASH) } else { None }));
+                    // since fix 1214e31 create leaves colliding transactions out: a failure is a violation
+                    findings.push((
+                        format!(
+                            "bundle_block passed can_bundle_block but returned no block: Block::create failed (pool {} -> {}; collision with a rebroadcast of block {}: pooled tx {}, staking tx {})",
+                            pool_txs.len(), pool_now, src, by_pool, by_stake
+                        ),
+                        None,
+                    ));
                     self.stat(&format!("create-failed:by_pool={}:by_stake={}", by_pool, by_stake));
                     self.used.clear();
                 }
@@ -757,7 +771,7 @@ impl Rig {
                 // --- structure: gt, pool in drained order, rebroadcasts, fee
                 let abs: Vec<Atx> = fin.transactions.iter().map(|t| self.atx(t)).collect();
                 let ids: Vec<u64> = abs.iter().map(|a| a.id).collect();
-                let start = if gt_tx.is_some() { 1 } else { 0 };
+                let start = if !abs.is_empty() && abs[0].ty == TransactionType::GoldenTicket { 1 } else { 0 };
                 let mut k = start;
                 while k < abs.len() && abs[k].ty != TransactionType::ATR && abs[k].ty != TransactionType::Fee {
                     k += 1;
@@ -784,7 +798,9 @@ impl Rig {
                         self.stat(&format!("block-tx-invalid:{}", ty_code(a.ty)));
                     }
                     if a.ty == TransactionType::GoldenTicket {
-                        gt_tbl.push((a.id, gt_solves(&t.data, &tip)));
+                        if !gt_tbl.iter().any(|(i, _)| *i == a.id) {
+                            gt_tbl.push((a.id, gt_solves(&t.data, &tip)));
+                        }
                     }
                 }
                 let atr_ids: Vec<u64> = abs.iter().filter(|a| a.ty == TransactionType::ATR).map(|a| a.id).collect();
@@ -952,20 +968,22 @@ impl Rig {
                 // --- the oracle
                 let n_atr = atr_ids.len();
                 let mut causes: Vec<&'static str> = vec![];
-                if gt_invalid && block_gt_invalid {
-                    causes.push(K_GT);
-                }
+
                 if pool_has_issuance && fin.id > 1 {
                     causes.push(K_ISSUANCE);
                 }
-                if pool_has_stake && self.prod.blockchain.social_stake_requirement != 0 {
-                    causes.push(K_STAKE);
-                }
+
                 // the payout class needs its symptom as well (a rebroadcast that does not validate, or a
                 // difference between header and recomputed values): other causes may be present in the
                 // same round
                 if multiplier > 1 && (n_atr > 0 || cvc.total_rebroadcast_nolan > 0) && (atr_invalid_before || !diffs.is_empty()) {
                     causes.push(K_CAP);
+                }
+                // fix 1214e31 leaves out pooled transactions that collide with a rebroadcast, after the
+                // gate has counted their routing work
+                let left_out = pool_txs.iter().filter(|t| !fin.transactions.iter().any(|b| b.signature == t.signature)).count();
+                if !clash_pool.is_empty() && left_out > 0 && fin.total_work < work_needed && cached_work >= work_needed {
+                    causes.push(K_LEFTOUT);
                 }
                 if outcome == Outcome::Split {
                     findings.push((format!("the two nodes disagree on the produced block: producer {:?}, second node {:?}", r1, r2), None));
@@ -1006,7 +1024,7 @@ impl Rig {
                 }
                 self.stat(&format!(
                     "produced:gt={}:atr={}:fee_tx={}:{:?}",
-                    gt_tx.is_some(),
+                    block_gt.is_some(),
                     if n_atr == 0 { "0" } else if n_atr < 5 { "1-4" } else { "5+" },
                     fin.has_fee_transaction,
                     outcome
@@ -1198,7 +1216,7 @@ fn random_spec(rig: &Rig, plan: &Plan, rng: &mut Rng, round: usize) -> RoundSpec
             }
             1 => {
                 if rig.rebroadcast_source() > 0 {
-                    items.push(Item::Clash { payer: rng.range(2, 5) as usize });
+                    items.push(Item::Clash { payer: rng.range(2, 5) as usize, fee: *rng.pick(&[500u64, 500, 60_000]) });
                     label = "rebroadcast-clash".to_string();
                 }
             }
@@ -1307,7 +1325,7 @@ fn scripted_spec(rig: &Rig, plan: &Plan, round: usize) -> Option<RoundSpec> {
         4 => {
             let mut items = plain_items;
             if rig.rebroadcast_source() > 0 && round % 3 == 0 {
-                items.push(Item::Clash { payer: 5 });
+                items.push(Item::Clash { payer: 5, fee: 500 });
             }
             Some(RoundSpec { items, gt: if round % 2 == 1 { GtSpec::Valid } else { GtSpec::None }, gap: big, label: "rebroadcast-clash".to_string() })
         }
@@ -1321,11 +1339,20 @@ fn scripted_spec(rig: &Rig, plan: &Plan, round: usize) -> Option<RoundSpec> {
             }
             Some(RoundSpec { items, gt: if round % 2 == 1 { GtSpec::Valid } else { GtSpec::None }, gap: big, label: "foreign-stake".to_string() })
         }
+        // the only routing work of the pool sits in a transaction that create leaves out
+        10 => {
+            if rig.rebroadcast_source() > 0 && round % 2 == 0 {
+                let items = vec![Item::Clash { payer: 5, fee: 60_000 }, Item::Transfer { payer: 4, fee: 0, hops: 0, biggest: false }];
+                Some(RoundSpec { items, gt: GtSpec::None, gap: (hb + hb / 2) as i64, label: "left-out-transaction-carried-the-work".to_string() })
+            } else {
+                Some(RoundSpec { items: plain_items, gt: if round % 2 == 1 { GtSpec::Valid } else { GtSpec::None }, gap: big, label: "warm-up".to_string() })
+            }
+        }
         // dust genesis: a payer spends a tiny output in the block in which it is due
         9 => {
             let mut items: Vec<Item> = (2..6usize).map(|p| Item::Transfer { payer: p, fee: 20_000, hops: 1, biggest: true }).collect();
             if rig.rebroadcast_source() == 1 {
-                items.push(Item::Clash { payer: 2 });
+                items.push(Item::Clash { payer: 2, fee: 500 });
             }
             Some(RoundSpec { items, gt: if round % 2 == 1 { GtSpec::Valid } else { GtSpec::None }, gap: big, label: "dust-spend".to_string() })
         }
@@ -1411,8 +1438,7 @@ fn run_scenario(plan: &Plan, debug: bool) -> ScenarioOut {
                     let known: Vec<&'static str> = findings.iter().filter_map(|f| f.1).collect();
                     let what = format!("producer liveness: the own block was rejected and 3 further attempts ended {:?}", last);
                     if last == Outcome::Rejected || last == Outcome::Split {
-                        if known.contains(&K_GT) {
-                            findings.push((format!("{} -- the pooled golden ticket with an invalid solution is still selected for the tip", what), Some(K_GT)));
+                        if false {
                         } else if known.contains(&K_CAP) {
                             findings.push((format!("{} -- every child of this tip carries the same rebroadcasts", what), Some(K_CAP)));
                         } else {
@@ -1473,6 +1499,7 @@ fn main() {
         Plan { kind: 7, seed: 0, gp: 20, stake: 0, hb: 10_000, profile: 0, target_blocks: 46, adversarial: 0 },
         Plan { kind: 7, seed: 0, gp: 8, stake: 50_000, hb: 10_000, profile: 0, target_blocks: 20, adversarial: 0 },
         Plan { kind: 9, seed: 0, gp: 3, stake: 0, hb: 10_000, profile: 1, target_blocks: 8, adversarial: 0 },
+        Plan { kind: 10, seed: 0, gp: 3, stake: 0, hb: 10_000, profile: 0, target_blocks: 9, adversarial: 0 },
     ];
     for _ in 0..nrandom {
         let gp = *rng.pick(&[3u64, 3, 5, 5, 8, 8, 20]);
@@ -1526,7 +1553,7 @@ fn main() {
                 if o.nontrivial && distinct.insert(o.coq.clone()) {
                     summary.nontrivial += 1;
                 }
-                if summary.samples.len() < 3 && o.rounds > 3 && idx >= 10 {
+                if summary.samples.len() < 3 && o.rounds > 3 && idx >= 11 {
                     summary.samples.push(o.desc.clone());
                 }
                 summary.case_descs.push(o.desc);
